@@ -19,6 +19,9 @@ type ctxTemplate struct {
 	DstRd string // expression read by the destination probe (default DstLv)
 	SrcRd string // expression read by the source probe (default SrcLv)
 	Wrap  bool   // the destination-side mutation runs inside a closure (closure capture)
+	// PtrEq is a Go pointer comparison that must be true when the specification
+	// established SameStorage(src, dst) for the context (CtxOK, field same).
+	PtrEq string
 }
 
 var templates = map[string]ctxTemplate{
@@ -115,33 +118,33 @@ var templates = map[string]ctxTemplate{
 	"ptr_to_ptr":   {Body: "x := $MK0\nt := $MKB\np := &t\nq := &x\n*p = *q\n$MUT\n$OUT", SrcLv: "x", DstLv: "(*p)"},
 
 	// ---- aliasing contexts
-	"addr":               {Body: "x := $MK0\np := &x\n$MUT\n$OUT", SrcLv: "x", DstLv: "(*p)"},
-	"addr_field":         {Body: "w := $W{f: $MK0}\np := &w.f\n$MUT\n$OUT", SrcLv: "w.f", DstLv: "(*p)"},
-	"addr_arrelem":       {Body: "a := [2]$T{$MK0, $MK1}\np := &a[1]\n$MUT\n$OUT", SrcLv: "a[1]", DstLv: "(*p)"},
-	"addr_slelem":        {Body: "s := []$T{$MK0, $MK1}\np := &s[1]\n$MUT\n$OUT", SrcLv: "s[1]", DstLv: "(*p)"},
-	"addr_global":        {Body: "$G = $MK0\np := &$G\n$MUT\n$OUT", SrcLv: "$G", DstLv: "(*p)"},
-	"addr_global_fn":     {Body: "$G = $MK0\np := addr$N()\n$MUT\n$OUT", SrcLv: "$G", DstLv: "(*p)"},
-	"addr_sub":           {Body: "x := $MK0\np := &x$K1\n$MUT\n$OUT", SrcLv: "x$K1", DstLv: "(*p)"},
+	"addr":               {Body: "x := $MK0\np := &x\n$MUT\n$OUT", SrcLv: "x", DstLv: "(*p)", PtrEq: "p == &x"},
+	"addr_field":         {Body: "w := $W{f: $MK0}\np := &w.f\n$MUT\n$OUT", SrcLv: "w.f", DstLv: "(*p)", PtrEq: "p == &w.f"},
+	"addr_arrelem":       {Body: "a := [2]$T{$MK0, $MK1}\np := &a[1]\n$MUT\n$OUT", SrcLv: "a[1]", DstLv: "(*p)", PtrEq: "p == &a[1]"},
+	"addr_slelem":        {Body: "s := []$T{$MK0, $MK1}\np := &s[1]\n$MUT\n$OUT", SrcLv: "s[1]", DstLv: "(*p)", PtrEq: "p == &s[1]"},
+	"addr_global":        {Body: "$G = $MK0\np := &$G\n$MUT\n$OUT", SrcLv: "$G", DstLv: "(*p)", PtrEq: "p == &$G"},
+	"addr_global_fn":     {Body: "$G = $MK0\np := addr$N()\n$MUT\n$OUT", SrcLv: "$G", DstLv: "(*p)", PtrEq: "p == &$G"},
+	"addr_sub":           {Body: "x := $MK0\np := &x$K1\n$MUT\n$OUT", SrcLv: "x$K1", DstLv: "(*p)", PtrEq: "p == &x$K1"},
 	"addr_leaf":          {Body: "x := $MK0\np := &$LEAF\n$MUT\n$OUT", SrcLv: "x", DstLv: "(*p)"},
-	"subslice":           {Body: "s := []$T{$MK0, $MK1, $MK2}\nt := s[1:2]\n$MUT\n$OUT", SrcLv: "s[1]", DstLv: "t[0]"},
-	"subslice3":          {Body: "s := []$T{$MK0, $MK1, $MK2}\nt := s[1:2:2]\n$MUT\n$OUT", SrcLv: "s[1]", DstLv: "t[0]"},
-	"subslice_array":     {Body: "a := [2]$T{$MK0, $MK1}\nt := a[1:2]\n$MUT\n$OUT", SrcLv: "a[1]", DstLv: "t[0]"},
-	"subslice_ptrarray":  {Body: "a := [2]$T{$MK0, $MK1}\npa := &a\nt := pa[:]\n$MUT\n$OUT", SrcLv: "a[1]", DstLv: "t[1]"},
-	"append_within":      {Body: "s := make([]$T, 1, 2)\ns[0] = $MK0\ne := $MKB\nt := append(s, e)\n$MUT\n$OUT", SrcLv: "s[0]", DstLv: "t[0]"},
-	"append_sibling":     {Body: "s := make([]$T, 1, 2)\ns[0] = $MK0\ne := $MKB\ne2 := $MKC\nt := append(s, e)\nu := append(s, e2)\n$MUT\n$OUT", SrcLv: "t[1]", DstLv: "u[1]"},
-	"append_sub_cap":     {Body: "s := []$T{$MK0, $MK1, $MK2}\nv := s[0:1]\ne := $MKB\nt := append(v, e)\n$MUT\n$OUT", SrcLv: "s[1]", DstLv: "t[1]"},
+	"subslice":           {Body: "s := []$T{$MK0, $MK1, $MK2}\nt := s[1:2]\n$MUT\n$OUT", SrcLv: "s[1]", DstLv: "t[0]", PtrEq: "&t[0] == &s[1]"},
+	"subslice3":          {Body: "s := []$T{$MK0, $MK1, $MK2}\nt := s[1:2:2]\n$MUT\n$OUT", SrcLv: "s[1]", DstLv: "t[0]", PtrEq: "&t[0] == &s[1]"},
+	"subslice_array":     {Body: "a := [2]$T{$MK0, $MK1}\nt := a[1:2]\n$MUT\n$OUT", SrcLv: "a[1]", DstLv: "t[0]", PtrEq: "&t[0] == &a[1]"},
+	"subslice_ptrarray":  {Body: "a := [2]$T{$MK0, $MK1}\npa := &a\nt := pa[:]\n$MUT\n$OUT", SrcLv: "a[1]", DstLv: "t[1]", PtrEq: "&t[1] == &a[1]"},
+	"append_within":      {Body: "s := make([]$T, 1, 2)\ns[0] = $MK0\ne := $MKB\nt := append(s, e)\n$MUT\n$OUT", SrcLv: "s[0]", DstLv: "t[0]", PtrEq: "&t[0] == &s[0]"},
+	"append_sibling":     {Body: "s := make([]$T, 1, 2)\ns[0] = $MK0\ne := $MKB\ne2 := $MKC\nt := append(s, e)\nu := append(s, e2)\n$MUT\n$OUT", SrcLv: "t[1]", DstLv: "u[1]", PtrEq: "&t[1] == &u[1]"},
+	"append_sub_cap":     {Body: "s := []$T{$MK0, $MK1, $MK2}\nv := s[0:1]\ne := $MKB\nt := append(v, e)\n$MUT\n$OUT", SrcLv: "s[1]", DstLv: "t[1]", PtrEq: "&t[1] == &s[1]"},
 	"closure":            {Body: "x := $MK0\n$MUT\n$OUT", SrcLv: "x", DstLv: "x", DstRd: "func() $T { return x }()", Wrap: true},
-	"precv":              {Body: "x := $MK0\nx.PWith(func(y *$T) {\n$MUT\n$OUT\n})", SrcLv: "x", DstLv: "(*y)"},
-	"precv_methodval":    {Body: "x := $MK0\nf := x.Ptr\ny := f()\n$MUT\n$OUT", SrcLv: "x", DstLv: "(*y)"},
-	"ptr_arg":            {Body: "x := $MK0\nfunc(y *$T) {\n$MUT\n$OUT\n}(&x)", SrcLv: "x", DstLv: "(*y)"},
-	"iface_ptr":          {Body: "x := $MK0\nvar i interface{} = &x\ny := i.(*$T)\n$MUT\n$OUT", SrcLv: "x", DstLv: "(*y)"},
-	"chan_ptr":           {Body: "x := $MK0\nch := make(chan *$T, 1)\nch <- &x\ny := <-ch\n$MUT\n$OUT", SrcLv: "x", DstLv: "(*y)"},
-	"ptr_holder":         {Body: "x := $MK0\nh := struct{ p *$T }{&x}\nh2 := h\n$MUT\n$OUT", SrcLv: "x", DstLv: "(*h2.p)"},
-	"slice_arg":          {Body: "s := []$T{$MK0}\nfunc(t []$T) {\n$MUT\n$OUT\n}(s)", SrcLv: "s[0]", DstLv: "t[0]"},
-	"slice_holder":       {Body: "s := []$T{$MK0}\nh := struct{ s []$T }{s}\nh2 := h\n$MUT\n$OUT", SrcLv: "s[0]", DstLv: "h2.s[0]"},
+	"precv":              {Body: "x := $MK0\nx.PWith(func(y *$T) {\n$MUT\n$OUT\n})", SrcLv: "x", DstLv: "(*y)", PtrEq: "y == &x"},
+	"precv_methodval":    {Body: "x := $MK0\nf := x.Ptr\ny := f()\n$MUT\n$OUT", SrcLv: "x", DstLv: "(*y)", PtrEq: "y == &x"},
+	"ptr_arg":            {Body: "x := $MK0\nfunc(y *$T) {\n$MUT\n$OUT\n}(&x)", SrcLv: "x", DstLv: "(*y)", PtrEq: "y == &x"},
+	"iface_ptr":          {Body: "x := $MK0\nvar i interface{} = &x\ny := i.(*$T)\n$MUT\n$OUT", SrcLv: "x", DstLv: "(*y)", PtrEq: "y == &x"},
+	"chan_ptr":           {Body: "x := $MK0\nch := make(chan *$T, 1)\nch <- &x\ny := <-ch\n$MUT\n$OUT", SrcLv: "x", DstLv: "(*y)", PtrEq: "y == &x"},
+	"ptr_holder":         {Body: "x := $MK0\nh := struct{ p *$T }{&x}\nh2 := h\n$MUT\n$OUT", SrcLv: "x", DstLv: "(*h2.p)", PtrEq: "h2.p == &x"},
+	"slice_arg":          {Body: "s := []$T{$MK0}\nfunc(t []$T) {\n$MUT\n$OUT\n}(s)", SrcLv: "s[0]", DstLv: "t[0]", PtrEq: "&t[0] == &s[0]"},
+	"slice_holder":       {Body: "s := []$T{$MK0}\nh := struct{ s []$T }{s}\nh2 := h\n$MUT\n$OUT", SrcLv: "s[0]", DstLv: "h2.s[0]", PtrEq: "&h2.s[0] == &s[0]"},
 	"map_alias":          {Body: "m := map[int32]$T{1: $MK0}\nn := m\n$MUT\n$OUT", SrcLv: "m[1]", DstLv: "n[1]"},
-	"ptrarr_index":       {Body: "a := [2]$T{$MK0, $MK1}\npa := &a\n$MUT\n$OUT", SrcLv: "a[1]", DstLv: "pa[1]"},
-	"field_of_ptr":       {Body: "w := $W{f: $MK0}\npw := &w\n$MUT\n$OUT", SrcLv: "w.f", DstLv: "pw.f"},
+	"ptrarr_index":       {Body: "a := [2]$T{$MK0, $MK1}\npa := &a\n$MUT\n$OUT", SrcLv: "a[1]", DstLv: "pa[1]", PtrEq: "&pa[1] == &a[1]"},
+	"field_of_ptr":       {Body: "w := $W{f: $MK0}\npw := &w\n$MUT\n$OUT", SrcLv: "w.f", DstLv: "pw.f", PtrEq: "&pw.f == &w.f"},
 	"range_ptrarray":     {Body: "a := [2]$T{$MK0, $MK1}\npa := &a\n" + rangeSnap("pa"), SrcLv: "a[1]", DstLv: "y"},
 	"range_slice_nosnap": {Body: "a := [2]$T{$MK0, $MK1}\n" + rangeSnap("a[:]"), SrcLv: "a[1]", DstLv: "y"},
 }
